@@ -5,6 +5,7 @@ func init() {
 		ID:    "C02",
 		Title: "@if/@elseif/@else renders exactly the first truthy branch",
 		Rules: []string{
+			"R-SCOPE: Env.Get / Env.Set by cases on chains of three scopes: a condition nested two bodies deep still sees the data",
 			"R-KEEP: a node a parse function returns is stored, passed on or returned on every path of its caller to a successful return (no parsed branch or body is left out of the tree)",
 			"R-KINDS / R-PRATT: conversion table of Go values (a nil slice or map is an empty container, truthy); grouping of chained ternaries",
 			"R-LOOP (evaluator state): no field of an existing Evaluator is written while evaluating, except counter steps",
@@ -21,6 +22,7 @@ func init() {
 		NotDecided:  "TODO",
 		Assumptions: trustedBase,
 		Run: func(m *Model, s *Sink) {
+			m.RunScope(s, "R-SCOPE")       // a condition reads its variables through every enclosing scope, at any nesting depth
 			m.RunKeepParsed(s, "R-KEEP")   // every branch that was parsed is in the tree: an empty @elseif still stops the chain
 			m.RunPratt(s, "R-PRATT")       // the ternary nests to the right in its else part
 			m.RunKinds(s, "R-KINDS")       // what a Go value becomes decides its truth: a nil slice is an empty array, not nil
